@@ -685,6 +685,14 @@ def main():
     unattributed = [f for f in foreign if not f["fn"]]
     if unattributed:
         undec.append(("-", "error diagnostics that could not be attributed to a function: %s" % "; ".join(sorted({f["message"] for f in unattributed}))[:300]))
+    # contracted functions that no longer exist (their records were dropped by the extractor, nothing assumed): the property is
+    # at best undecided by the deductive part; a violation found in what remains is still a violation
+    orphans = [o_ for o_ in report.get("orphaned_records", []) if o_["kind"] in ("fn", "assumed") and (pid in o_["props"] or any(w_.endswith("::" + o_["fn"]) or w_.endswith("::" + o_["fn"].split("::")[-1]) for w_ in want))]
+    for o_ in orphans:
+        undec.append(("%s::%s" % (o_["module"], o_["fn"]), "the contracted function no longer exists (its contract %s has nothing to be checked against)" % o_["origin"]))
+    if orphans and not violations:
+        fallback("orphaned contracts: " + ", ".join("%s::%s" % (o_["module"], o_["fn"]) for o_ in orphans),
+                 "contracted function(s) removed: " + ", ".join("%s::%s" % (o_["module"], o_["fn"]) for o_ in orphans) + "; the remaining obligations of the cone were discharged")
     expected_n = spec.get("expected_obligations")
     vac = []
     if not obligations:
